@@ -172,9 +172,13 @@ unit("C35", "Mark-sweep size classes fit every request",
           "bin in 1..=MAX_BIN, bin_size >= aligned request, monotone in size and align, table strictly increasing; real get_maximum_aligned_size cross-checked against the worst gap align_allocation_no_fill inserts; distinct = (vm, align, bin)",
      technique="exhaustive enumeration against the arithmetic definition (finite domain)",
      level_text="The whole finite request domain is enumerated for four alignment configurations.",
-     note="The fresh-block free-list half of the property (cells disjoint, strided, inside the block) is observed in live MarkSweep gcsim runs (C02/C03 overlap and bounds checks), not here.",
-     design_ref="2/C35", exhaustive=True,
-     floors={"quick": {"evaluations": 139000, "requests_core": 139000}})
+     note="The free-list half of the property (cells disjoint, strided from the block start, inside the block) is observed in live mark-sweep spaces: gcsim scenario msblocks allocates more than two blocks' worth of cells of every size class "
+          "(raw allocations of exactly the cell size), on fresh blocks and again on blocks recycled by a GC, in the MarkSweep plan (variants A, B, D) and in the mark-sweep non-moving space of variant D.",
+     design_ref="2/C35", exhaustive=True, crash_is_violation=True, crash_sig=lambda shard, res: "crash:%s:%s" % (shard["variant"], _plan_of(shard) if shard["pkg"] == "gcsim" else "units"),
+     shards=lambda tier, seed: [dict(pkg="units", variant="A", args=["C35"])] + [
+         gc_shard(v, plan, _rng(seed, 35 + i), 1, mutators=1, workers=2, heap=64, stress=0, scenario="msblocks")
+         for i, (v, plan) in enumerate([("A", "MarkSweep"), ("B", "MarkSweep"), ("D", "MarkSweep"), ("D", "SemiSpace")])],
+     floors={"quick": {"evaluations": 139000, "requests_core": 139000, "size_classes_allocated_live": 250, "live_cells_checked": 250000, "live_blocks_seen": 400}})
 
 unit("C36", "The large-object treadmill accounts for every object exactly once",
      rule="4000 histories (thorough 40000) following the LargeObjectSpace protocol: add (nursery / allocate-as-live), flip(full?), copy of each marked object exactly once, collect_nursery (+collect_mature when full), "
@@ -184,7 +188,7 @@ unit("C36", "The large-object treadmill accounts for every object exactly once",
      technique="reference-model monitor: four id-set model vs the real TreadMill; every sweep result compared as a set, emptiness predicates compared at six points per cycle, conservation over the history",
      level_text="Histories consistent with the LOS protocol against a four-set model: each sweep returns exactly the unmarked objects of the collected sets once; marked objects are never swept; added == swept overall.",
      note="Object references are synthetic addresses (the treadmill only hashes them).",
-     design_ref="2/C36", miri=True,
+     design_ref="2/C36", miri=True, crash_is_violation=True, crash_sig=lambda shard, res: "crash:%s:%s" % (shard["variant"], _plan_of(shard) if shard["pkg"] == "gcsim" else "units"),
      shards=lambda tier, seed: [dict(pkg="units", variant="A", args=["C36"])] + ([miri_shard("C36", 1)] if tier == "thorough" else []) + [
          gc_shard(v, plan, _rng(seed, 36 + i), 12000 if tier == "quick" else 40000, flags=["weak"], mutators=_rng(seed, 360 + i).choice([1, 2]), heap=64, stress=200000)
          for i, (v, plan) in enumerate([("A", "SemiSpace"), ("A", "Immix"), ("A", "GenImmix"), ("A", "GenCopy"), ("A", "StickyImmix"), ("A", "MarkSweep"), ("B", "Compressor"), ("C", "MarkCompact")] * (1 if tier == "quick" else 4))],
@@ -647,7 +651,7 @@ unit("C17", "Concurrent forwarding copies an object once and all tracers agree",
      level_text="Per object: ObjectModel::copy called once (0 when the winner declines), exactly one tracer saw the untriggered state, all tracers return the winner's copy (or the unmoved object), no returned word is a stale/half-written pointer or carries state bits; "
                 "final bits/pointer/mark checked. Interleavings = what 2-16 threads on 16 cores plus failpoints produce.",
      note="The trace_object sequences are replicated by the harness from policy/copyspace.rs and immixspace.rs (each needs a real space and GCWorker); the same property is also observed end-to-end by gcsim (copy count per object per GC in ObjectModel::copy).",
-     design_ref="2/C17", parallel=2,
+     design_ref="2/C17", parallel=2, crash_is_violation=True, crash_sig=lambda shard, res: "crash:%s:%s" % (shard["variant"], _plan_of(shard) if shard["pkg"] == "gcsim" else "units"),
      shards=lambda tier, seed: [dict(pkg="units", variant="A", args=["C17"])] + [
          gc_shard(v, plan, _rng(seed, 17 + i), 14000 if tier == "quick" else 40000, workers=8, mutators=_rng(seed, 170 + i).choice([1, 2, 4]), heap=32, stress=100000, flags=["failpoints"])
          for i, (v, plan) in enumerate([("A", "SemiSpace"), ("A", "GenCopy"), ("A", "GenImmix"), ("A", "Immix"), ("A", "StickyImmix"), ("B", "GenImmix"), ("C", "SemiSpace")] * (1 if tier == "quick" else 4))],
